@@ -219,7 +219,7 @@ def run(ck):
     thorough = ck.tier == 'thorough'
     ck.rule = ('seeded configurations (sweeper kind, levels, steps per block, preconditioner per level, predictor, coupling, nsweeps, initial guess, '
                'residual type, quadrature type, end-point mode); non-trivial = every step reached restol (the property\'s premise)')
-    ck.check_props(required=['C01_fixed_point_is_collocation', 'C01_collocation_is_fixed_point', 'C01_imex_fixed_point_is_collocation', 'C01_explicit_fixed_point_is_collocation', 'C01_explicit_collocation_is_fixed_point',
+    ck.check_props(required=['C01_fixed_point_is_collocation', 'C01_collocation_is_fixed_point', 'C01_imex_fixed_point_is_collocation', 'C01_imex_collocation_is_fixed_point', 'C01_explicit_fixed_point_is_collocation', 'C01_explicit_collocation_is_fixed_point',
                              'C01_multi_implicit_fixed_point_is_collocation', 'C01_residual_zero_iff_collocation'])
     exact_part(ck, ck.rng, thorough)
     float_part(ck, ck.rng, thorough)
